@@ -4,6 +4,7 @@ MongoDB Storage and Migrations for Policies.
 
 import logging
 import copy
+import re
 from abc import ABCMeta
 
 import bson.json_util as b_json
@@ -89,7 +90,7 @@ class MongoStorage(Storage):
         Returns proper query-filter based on the checker type and a flag that marks whether aggregation should be used
         """
         if isinstance(checker, StringFuzzyChecker):
-            return self.__string_query_on_conditions('$regex', inquiry), False
+            return self.__string_query_on_conditions('$regex', inquiry, re.escape), False
         elif isinstance(checker, StringExactChecker):
             # an element enclosed in the policy tags is matched by its inner text
             return self.__string_query_on_conditions('$in', inquiry, lambda v: [v, '<%s>' % v]), False
